@@ -3,10 +3,12 @@ import CelmaVerif.Lemmas.ArgStringMem
 /-
   C07 — arguments from a string, a file or the environment equal the same words on argv.
 
-  THIS FILE CURRENTLY HOLDS THE STRING-SPLITTING HALF ONLY ("splitting a command-line string
-  into words inverts quoting") plus the memory safety of the argv array built from the words
-  (shared with C04).  The file / environment-source theorems (`C07_sources`, `C07_same_as_argv`,
-  `C07_override` of DESIGN.md) are added by the argument-handler model.
+  This file holds the STRING-SPLITTING HALF ("splitting a command-line string into words inverts
+  quoting") plus the memory safety of the argv array built from the words (shared with C04).
+  The file / environment-source half is in Props/C07b.lean (`C07_sources_are_uses`, `C07_same_as_argv`,
+  `C07_same_as_the_words_on_argv`, `C07_valid_line_through_sources`, `C07_override`,
+  `C07_override_obeys`); what an accepted evaluation with sources obeys is
+  `C02_parse_faithful_sources` / `C02_sound_sources_partial` in Props/C02b.lean.
 
   Property theorems only; helper lemmas are in Lemmas/ArgString.lean and Lemmas/ArgStringMem.lean.
 -/
